@@ -31,7 +31,13 @@ func applyDelete(ctx context.Context, s *Store, nodes []vnode, m *refModel, i in
 	}
 }
 
-func applyGC(ctx context.Context, s *Store, nodes []vnode, m *refModel) {}
+// GC in a history: the reference model keeps what is reachable from a tagged node or from an
+// indexed referrer chain ending in a reachable manifest (same model as the C09 harness).
+func applyGC(ctx context.Context, s *Store, nodes []vnode, m *refModel) {
+	err := s.GC(ctx)
+	verifrt.Assert(err == nil, "C08.gc-succeeds")
+	modelGC(nodes, m)
+}
 
 // VerifC08Reopen: after any history of Push/Tag/Untag/Delete(/SaveIndex) the directory is a
 // valid layout and reopening it (read-write, and read-only through an fs.FS) gives the same
@@ -49,7 +55,7 @@ func VerifC08Reopen() {
 	s.AutoGC = false
 	s.AutoSaveIndex = verifrt.Bool()
 	m := &refModel{stored: make([]bool, K), tags: map[string]int{}}
-	applyHistory(ctx, s, nodes, m, k, false, verifrt.Param("delete", 1) != 0)
+	applyHistory(ctx, s, nodes, m, k, verifrt.Param("gc", 0) != 0, verifrt.Param("delete", 1) != 0)
 	if !s.AutoSaveIndex {
 		verifrt.Assert(s.SaveIndex() == nil, "C08.saveindex-succeeds")
 	}
